@@ -84,6 +84,13 @@ var _ SpanProcessor = (*batchSpanProcessor)(nil)
 func NewBatchSpanProcessor(exporter SpanExporter, options ...BatchSpanProcessorOption) SpanProcessor {
 	maxQueueSize := env.BatchSpanProcessorMaxQueueSize(DefaultMaxQueueSize)
 	maxExportBatchSize := env.BatchSpanProcessorMaxExportBatchSize(DefaultMaxExportBatchSize)
+	// Out-of-range values from the environment are ignored in favour of the defaults.
+	if maxQueueSize < 0 {
+		maxQueueSize = DefaultMaxQueueSize
+	}
+	if maxExportBatchSize < 0 {
+		maxExportBatchSize = DefaultMaxExportBatchSize
+	}
 
 	if maxExportBatchSize > maxQueueSize {
 		if DefaultMaxExportBatchSize > maxQueueSize {
@@ -101,6 +108,20 @@ func NewBatchSpanProcessor(exporter SpanExporter, options ...BatchSpanProcessorO
 	}
 	for _, opt := range options {
 		opt(&o)
+	}
+	// Negative sizes would panic in make below and negative durations make the
+	// worker spin: ignore them in favour of the defaults.
+	if o.MaxQueueSize < 0 {
+		o.MaxQueueSize = DefaultMaxQueueSize
+	}
+	if o.MaxExportBatchSize < 0 {
+		o.MaxExportBatchSize = DefaultMaxExportBatchSize
+	}
+	if o.BatchTimeout < 0 {
+		o.BatchTimeout = DefaultScheduleDelay * time.Millisecond
+	}
+	if o.ExportTimeout < 0 {
+		o.ExportTimeout = DefaultExportTimeout * time.Millisecond
 	}
 	bsp := &batchSpanProcessor{
 		e:      exporter,
